@@ -1,17 +1,27 @@
-// Command c16 drives the real wallet recovery (wallet.recovery through the
-// verif hook) against simulated chains built from generated address-usage
-// patterns, and the birthday block search against generated timestamp
-// sequences.  One JSON object per case on stdout.
+// Command c16 drives the real wallet recovery against simulated chains built
+// from generated address-usage patterns, and the birthday block search
+// against generated timestamp sequences.  One JSON object per case on stdout.
+//
+// Recovery is entered in two ways: through the production start-up (entry
+// "sync": Wallet.SynchronizeRPC + a chain.ClientConnected notification, i.e.
+// handleChainNotifications -> birthdaySanityCheck -> syncWithChain, which on a
+// wallet restored from seed locates the birthday block, stores it as
+// synced-to and recovers from the next height), and through the verif hook
+// VerifRecovery on a wallet at height 0 (entry "": the window logic alone).
+// The backend's FilterBlocks is simchain's loop or the REAL loop of the
+// bitcoind / btcd client talking JSON-RPC to the simulated node.
 package main
 
 import (
 	"crypto/sha256"
 	"encoding/binary"
 	"encoding/json"
+	"errors"
 	"fmt"
 	"os"
 	"sort"
 	"sync"
+	"sync/atomic"
 	"time"
 
 	"github.com/btcsuite/btcd/btcutil"
@@ -19,6 +29,7 @@ import (
 	"github.com/btcsuite/btcd/chaincfg/chainhash"
 	"github.com/btcsuite/btcd/txscript"
 	"github.com/btcsuite/btcd/wire"
+	"github.com/btcsuite/btcwallet/chain"
 	"github.com/btcsuite/btcwallet/waddrmgr"
 	"github.com/btcsuite/btcwallet/wallet"
 	"github.com/btcsuite/btcwallet/walletdb"
@@ -78,6 +89,12 @@ type c16In struct {
 	Ts         []int64 `json:"ts"`
 	BirthdayTs int64   `json:"birthday_ts"`
 	ViaWallet  bool    `json:"via_wallet"` // birthday_ts is the creation time given to wallet.Create; the search uses Manager.Birthday()
+	// recovery: "" = the hook VerifRecovery on a wallet at height 0 with the birthday block bday;
+	// "sync" = the production start-up (SynchronizeRPC + ClientConnected) on a wallet restored from seed whose
+	// stored birthday is birthday_ts; block timestamps = ts (len+1 values) or, if empty, simchain's grid
+	Entry string `json:"entry,omitempty"`
+	// "" = simchain's own FilterBlocks loop; "bitcoind" | "btcd" = the real client's FilterBlocks over loopback JSON-RPC
+	Backend string `json:"backend,omitempty"`
 }
 
 type c16Obs struct {
@@ -91,6 +108,7 @@ type c16Obs struct {
 	Balance   int64      `json:"balance"`
 	Unspent   [][3]int64 `json:"unspent"` // (tx id, position, value), sorted
 	Synced    int32      `json:"synced"`
+	FilterCalls int      `json:"filter_calls"` // FilterBlocks requests made by the wallet
 	// birthday
 	Height    int32 `json:"height"`
 	SearchFor int64 `json:"search_for"` // the timestamp handed to the search
@@ -102,6 +120,7 @@ type c16Case struct {
 	Oracle []string `json:"oracle"`
 	Tags   []string `json:"tags"`
 	Site   string   `json:"site"`
+	Ms     int64    `json:"ms"` // wall time of the case
 }
 
 func c16SeedBytes(id int) []byte {
@@ -210,7 +229,35 @@ type walletOut struct {
 	val   int64
 	h     int32
 	spent bool
+	// the property promises its discovery (false: an output in a block the
+	// wallet need not scan, counted only because the wallet credited it)
+	promised bool
 }
+
+// c16SyncTimeout bounds one production start-up.
+const c16SyncTimeout = 60 * time.Second
+
+var errFilterLoop = errors.New("recovery does not advance: FilterBlocks called more often than blocks and batches allow")
+
+// guarded counts the FilterBlocks calls of one case and refuses once they
+// exceed what any terminating recovery of the case can need.
+type guarded struct {
+	chain.Interface
+	limit   int
+	calls   int64
+	tripped int32
+}
+
+func (g *guarded) FilterBlocks(req *chain.FilterBlocksRequest) (*chain.FilterBlocksResponse, error) {
+	if atomic.AddInt64(&g.calls, 1) > int64(g.limit) {
+		atomic.StoreInt32(&g.tripped, 1)
+		return nil, errFilterLoop
+	}
+	return g.Interface.FilterBlocks(req)
+}
+
+func (g *guarded) isTripped() bool { return atomic.LoadInt32(&g.tripped) == 1 }
+func (g *guarded) count() int      { return int(atomic.LoadInt64(&g.calls)) }
 
 // c16Recovery builds the chain, runs recovery on a fresh wallet and observes.
 func c16Recovery(in c16In) (c16Obs, []string, string, error) {
@@ -268,8 +315,9 @@ func c16Recovery(in c16In) (c16Obs, []string, string, error) {
 	}
 
 	// fresh wallet restored from the same seed
+	sync_ := in.Entry == "sync"
 	creation := time.Unix(c16Genesis-1000000, 0)
-	if in.Bday < 0 {
+	if in.Bday < 0 || sync_ {
 		creation = time.Unix(in.BirthdayTs+c16Margin48, 0) // stored birthday = birthday_ts
 	}
 	env, err := walletenv.New(c16SeedBytes(in.Seed), creation, in.W, nil)
@@ -278,6 +326,30 @@ func c16Recovery(in c16In) (c16Obs, []string, string, error) {
 	}
 	defer env.Close()
 	sc := simchain.New(params)
+	var backend chain.Interface = sc
+	if in.Backend != "" {
+		rl, err := sc.WithRealFilterBlocks(in.Backend)
+		if err != nil {
+			return obs, nil, "", err
+		}
+		defer rl.Close()
+		backend = rl
+	}
+	// a recovery that asks for more filter runs than blocks and batches can
+	// account for is not advancing: the backend then refuses
+	g := &guarded{Interface: backend,
+		limit: 2*len(in.Blocks) + int(in.Len)/500 + 4*len(in.Cuts) + 16}
+	extend := func(to int32) {
+		for sc.Tip().Height < to {
+			h := sc.Tip().Height + 1
+			var ts *time.Time
+			if len(in.Ts) > int(h) {
+				t := time.Unix(in.Ts[h], 0)
+				ts = &t
+			}
+			sc.Extend(byHeight[h], ts)
+		}
+	}
 
 	obs.InitZero = true
 	for _, s := range c16Scopes {
@@ -293,21 +365,62 @@ func c16Recovery(in c16In) (c16Obs, []string, string, error) {
 	var stamp *waddrmgr.BlockStamp
 	first := true
 	for _, cut := range in.Cuts {
-		for sc.Tip().Height < cut {
-			sc.Extend(byHeight[sc.Tip().Height+1], nil)
-		}
+		extend(cut)
 		if !first {
 			if err := env.Reopen(in.W, nil); err != nil {
 				return obs, nil, "", err
 			}
+			// notifications left over from the previous start
+			for drained := false; !drained; {
+				select {
+				case <-sc.Notifications():
+				default:
+					drained = true
+				}
+			}
 		}
-		first = false
-		env.W.VerifSetChainClient(sc)
 		if in.Unlocked {
 			if err := env.W.Unlock(walletenv.PrivPass, nil); err != nil {
 				return obs, nil, "", err
 			}
 		}
+		if sync_ {
+			// the production entry: attach the backend and announce the
+			// connection; handleChainNotifications does the rest
+			env.W.SynchronizeRPC(g)
+			sc.Notify(chain.ClientConnected{})
+			deadline := time.Now().Add(c16SyncTimeout)
+			for !env.W.ChainSynced() && !g.isTripped() {
+				if time.Now().After(deadline) {
+					obs.Err = "start-up synchronisation did not complete"
+					break
+				}
+				time.Sleep(200 * time.Microsecond)
+			}
+			if g.isTripped() {
+				obs.Err = errFilterLoop.Error()
+			}
+			if first {
+				err := walletdb.View(env.DB, func(tx walletdb.ReadTx) error {
+					bs, _, err := env.W.Manager.BirthdayBlock(tx.ReadBucket(nsAddr))
+					if err != nil {
+						return err
+					}
+					obs.BdayUsed = bs.Height
+					return nil
+				})
+				if err != nil && obs.Err == "" {
+					obs.Err = "no birthday block stored by the first start: " + err.Error()
+				}
+			}
+			first = false
+			if obs.Err != "" {
+				break
+			}
+			continue
+		}
+		first = false
+		env.W.VerifSetChainClient(g)
 		if stamp == nil {
 			if in.Bday < 0 {
 				stamp, err = wallet.VerifLocateBirthdayBlock(sc, env.W.Manager.Birthday())
@@ -323,11 +436,12 @@ func c16Recovery(in c16In) (c16Obs, []string, string, error) {
 			}
 			obs.BdayUsed = stamp.Height
 		}
-		if err := env.W.VerifRecovery(sc, stamp); err != nil {
+		if err := env.W.VerifRecovery(g, stamp); err != nil {
 			obs.Err = err.Error()
 			break
 		}
 	}
+	obs.FilterCalls = g.count()
 
 	// ---- observe
 	w := env.W
@@ -345,38 +459,18 @@ func c16Recovery(in c16In) (c16Obs, []string, string, error) {
 	obs.Balance = int64(bal)
 	obs.Synced = w.Manager.SyncedTo().Height
 
-	// harness' own ledger of what it paid, from the first block that may pay
-	// the wallet: the explicit birthday block, or - when the birthday block is
-	// located by the wallet - every block (the generator pays only in blocks
-	// stamped later than birthday + 2h, so a search result that skips one of
-	// them shows up as a missed payment)
+	// the first block whose payments the property promises to recover
 	scanFrom := c16ExpectFrom(in)
-	var outs []*walletOut
-	byOp := map[[2]int64]*walletOut{}
 	maxPaid := map[[2]uint32]int64{}
-	type spendRef struct {
-		tx  int64
-		inp int
-	}
-	var spends []spendRef
 	for _, b := range in.Blocks {
 		if b.H < scanFrom || b.H > in.Len {
-			continue // not scanned / not on the chain
+			continue // not promised / not on the chain
 		}
 		for _, t := range b.Txs {
-			for n, i := range t.Ins {
-				if o, ok := byOp[[2]int64{i[0], i[1]}]; ok && !o.spent {
-					o.spent = true
-					spends = append(spends, spendRef{t.ID, n})
-				}
-			}
-			for pos, o := range t.Outs {
+			for _, o := range t.Outs {
 				if o.K == nil {
 					continue
 				}
-				wo := &walletOut{tx: t.ID, pos: uint32(pos), key: *o.K, val: o.V, h: b.H}
-				outs = append(outs, wo)
-				byOp[[2]int64{t.ID, int64(pos)}] = wo
 				bk := [2]uint32{o.K[0], o.K[1]}
 				if cur, ok := maxPaid[bk]; !ok || int64(o.K[2]) > cur {
 					maxPaid[bk] = int64(o.K[2])
@@ -504,6 +598,50 @@ func c16Recovery(in c16In) (c16Obs, []string, string, error) {
 		}
 	}
 
+	// harness' own ledger of what it paid.  Promised: every payment from
+	// block scanFrom on.  With the production entry the wallet may also have
+	// scanned earlier blocks (after its birthday block, stamped within the
+	// search's two-hour tolerance): an output there is not promised, but if
+	// the wallet did credit it, it belongs to the balance and its spend must
+	// be seen.
+	var outs []*walletOut
+	byOp := map[[2]int64]*walletOut{}
+	type spendRef struct {
+		tx  int64
+		inp int
+	}
+	var spends []spendRef
+	for _, b := range in.Blocks {
+		if b.H < 1 || b.H > in.Len {
+			continue // not on the chain
+		}
+		promised := b.H >= scanFrom
+		if !promised && in.Entry != "sync" {
+			continue // not scanned
+		}
+		for _, t := range b.Txs {
+			for n, i := range t.Ins {
+				if o, ok := byOp[[2]int64{i[0], i[1]}]; ok && !o.spent {
+					o.spent = true
+					spends = append(spends, spendRef{t.ID, n})
+				}
+			}
+			for pos, o := range t.Outs {
+				if o.K == nil {
+					continue
+				}
+				if !promised {
+					if x := details[t.ID]; x == nil || !x.credits[uint32(pos)] {
+						continue
+					}
+				}
+				wo := &walletOut{tx: t.ID, pos: uint32(pos), key: *o.K, val: o.V, h: b.H, promised: promised}
+				outs = append(outs, wo)
+				byOp[[2]int64{t.ID, int64(pos)}] = wo
+			}
+		}
+	}
+
 	// ---- oracle: the property, against what the harness itself paid
 	var bad []string
 	site := ""
@@ -520,18 +658,29 @@ func c16Recovery(in c16In) (c16Obs, []string, string, error) {
 	}
 	bname := []string{"external", "internal"}
 	sname := []string{"bip44", "bip49", "bip84", "bip86"}
-	if obs.Err != "" {
+	if obs.Err == errFilterLoop.Error() {
+		add("recovery_does_not_terminate", "recovery")
+	} else if obs.Err != "" {
 		add("recovery_failed", "recovery")
 	}
 	var want int64
+	if sync_ && obs.Err == "" {
+		// the block scanning starts from (the one after the stored birthday
+		// block) must not be later than the first block that could pay
+		if scanFrom <= in.Len && obs.BdayUsed+1 > scanFrom {
+			add("birthday_block_too_late", "syncWithChain")
+		}
+	}
 	for _, o := range outs {
 		st := sname[o.key[0]] + "/" + bname[o.key[1]]
-		if !present[o.key] || !used[o.key] {
-			add("used_address_not_discovered", st)
-		}
-		x := details[o.tx]
-		if x == nil || !x.credits[o.pos] || x.height != o.h {
-			add("payment_not_recorded", st)
+		if o.promised {
+			if !present[o.key] || !used[o.key] {
+				add("used_address_not_discovered", st)
+			}
+			x := details[o.tx]
+			if x == nil || !x.credits[o.pos] || x.height != o.h {
+				add("payment_not_recorded", st)
+			}
 		}
 		if !o.spent {
 			want += o.val
@@ -618,10 +767,50 @@ func c16Birthday(in c16In) (c16Obs, []string, []string, error) {
 // c16ExpectFrom is the height of the first block whose payments the property
 // expects to be recovered.
 func c16ExpectFrom(in c16In) int32 {
+	if in.Entry == "sync" {
+		// production entry: the first block after genesis stamped later
+		// than the stored birthday + 2h (len+1 if there is none)
+		for h := int32(1); h <= in.Len; h++ {
+			if c16TsAt(in, h) > in.BirthdayTs+c16Delta {
+				return h
+			}
+		}
+		return in.Len + 1
+	}
 	if in.Bday < 0 {
 		return 0
 	}
 	return in.Bday
+}
+
+// c16TsAt is the timestamp of the block at a height.
+func c16TsAt(in c16In, h int32) int64 {
+	if len(in.Ts) > int(h) {
+		return in.Ts[h]
+	}
+	return c16Genesis + int64(h)*c16Spacing
+}
+
+// c16Aim is the harness' own copy of the search, used only to aim generated
+// payments at the blocks around its result (never by the oracle).
+func c16Aim(in c16In, best int32) int32 {
+	left, right := int32(0), best
+	for {
+		mid := left + (right-left)/2
+		if mid == 0 || mid == best || mid == left {
+			return mid
+		}
+		d := c16TsAt(in, mid) - in.BirthdayTs
+		if d > c16Delta {
+			right = mid
+			continue
+		}
+		if d < -c16Delta {
+			left = mid
+			continue
+		}
+		return mid
+	}
 }
 
 // c16WithinLookahead decides the property's hypothesis on the input itself:
@@ -673,27 +862,124 @@ func c16GenRecovery(r *gen.R, long bool) (c16In, []string) {
 	} else {
 		in.Len = int32(r.Range(3, 60))
 	}
-	// birthday block
-	first := int32(1)
-	switch r.Pick(6, 2, 2) {
+	// how recovery is entered, and the birthday block
+	first := int32(1)       // lowest height the pattern below pays at
+	boundary := int32(2000) // last block of the first batch
+	var hot []int32         // heights that get activity for sure
+	c0 := in.Len            // chain length at the first start
+	switch r.Pick(4, 1, 7) {
 	case 0:
 		in.Bday = 0
+		tags = append(tags, "entry_hook")
 	case 1:
+		// the hook with a birthday block above the wallet's height: blocks
+		// below it are looked at but not filtered; payments start after it
 		in.Bday = int32(r.Range(1, int(in.Len)/2+1))
-		first = in.Bday
-		tags = append(tags, "explicit_birthday_block")
+		first = in.Bday + 1
+		boundary = in.Bday + 2000
+		tags = append(tags, "entry_hook", "explicit_birthday_block")
 	case 2:
+		in.Entry = "sync"
 		in.Bday = -1
-		// the searched birthday lies on the default time grid somewhere in the first half
-		at := int64(r.Range(0, int(in.Len)/2))
-		in.BirthdayTs = c16Genesis + at*c16Spacing + int64(r.Range(-600, 600))
-		// first block stamped later than birthday + 2h
-		f := (in.BirthdayTs+c16Delta-c16Genesis)/c16Spacing + 1
-		if f < 1 {
-			f = 1
+		tags = append(tags, "entry_sync")
+		if r.Chance(1, 2) {
+			c0 = int32(r.Range(0, int(in.Len)))
 		}
-		first = int32(f)
-		tags = append(tags, "located_birthday_block")
+		gmax := int(in.Len) / 2
+		if gmax > 60 {
+			gmax = 60
+		}
+		g := int64(r.Range(0, gmax)) // the block the search is meant to end at
+		switch r.Pick(3, 3, 3) {
+		case 0:
+			// default grid: the search ends somewhere within 2h of the birthday
+			in.BirthdayTs = c16Genesis + g*c16Spacing + int64(r.Range(-600, 600))
+			tags = append(tags, "ts_grid")
+		case 1:
+			// a gap: blocks up to g are stamped more than 2h before the
+			// birthday, blocks after g more than 2h after it
+			in.Ts = make([]int64, in.Len+1)
+			for h := int64(0); h <= g; h++ {
+				in.Ts[h] = c16Genesis + h*c16Spacing
+			}
+			in.BirthdayTs = in.Ts[g] + c16Delta + int64(r.Range(1, 5000))
+			t := in.BirthdayTs + c16Delta + int64(r.Range(1, 3000))
+			for h := g + 1; h <= int64(in.Len); h++ {
+				in.Ts[h] = t
+				t += int64(r.Pick(1, 4)) * c16Spacing
+			}
+			tags = append(tags, "ts_gap_around_birthday")
+		case 2:
+			// block g is the only one within 2h of the birthday
+			in.Ts = make([]int64, in.Len+1)
+			for h := int64(0); h < g; h++ {
+				in.Ts[h] = c16Genesis + h*c16Spacing
+			}
+			in.Ts[g] = c16Genesis + g*c16Spacing
+			if g > 0 {
+				in.Ts[g] += 30000
+			}
+			in.BirthdayTs = in.Ts[g] + []int64{-7200, -7199, -1, 0, 1, 7199, 7200, int64(r.Range(-7200, 7200))}[r.Intn(8)]
+			t := in.Ts[g]
+			if in.BirthdayTs > t {
+				t = in.BirthdayTs
+			}
+			t += c16Delta + int64(r.Range(1, 3000))
+			for h := g + 1; h <= int64(in.Len); h++ {
+				in.Ts[h] = t
+				t += int64(r.Pick(1, 4)) * c16Spacing
+			}
+			tags = append(tags, "ts_single_block_in_tolerance")
+		}
+		payable := c16ExpectFrom(in) // first block stamped later than birthday + 2h
+		aim := c16Aim(in, c0)        // where the first start's search ends
+		first = payable
+		switch r.Pick(5, 2, 1) {
+		case 1:
+			// the history begins right after the birthday block, inside the
+			// search's tolerance: found, though not promised
+			if aim+1 < first {
+				first = aim + 1
+				tags = append(tags, "history_starts_in_tolerance_zone")
+			}
+		case 2:
+			// ... or in the birthday block itself, which is never scanned
+			if aim >= 1 && aim < first {
+				first = aim
+				tags = append(tags, "history_starts_in_birthday_block")
+			}
+		}
+		if first > in.Len {
+			first = in.Len
+		}
+		if first < 1 {
+			first = 1
+		}
+		hot = append(hot, first)
+		if payable <= in.Len && r.Chance(2, 3) {
+			hot = append(hot, payable)
+		}
+		if aim+1 == payable {
+			tags = append(tags, "first_payable_block_right_after_birthday_block")
+		}
+		boundary = aim + 2000
+		// the real loops cost a JSON-RPC round trip per block: on the long
+		// chains they are used less often
+		wsim := 4
+		if long {
+			wsim = 14
+		}
+		switch r.Pick(wsim, 3, 3) {
+		case 1:
+			in.Backend = "bitcoind"
+		case 2:
+			in.Backend = "btcd"
+		}
+		if in.Backend != "" {
+			tags = append(tags, "real_filterblocks_loop_"+in.Backend)
+		} else {
+			tags = append(tags, "simulated_filterblocks_loop")
+		}
 	}
 	if first > in.Len {
 		first = in.Len
@@ -701,10 +987,13 @@ func c16GenRecovery(r *gen.R, long bool) (c16In, []string) {
 	// active blocks
 	nact := r.Range(1, 10)
 	hs := map[int32]bool{}
+	for _, h := range hot {
+		hs[h] = true
+	}
 	for i := 0; i < nact; i++ {
 		h := int32(r.Range(int(first), int(in.Len)))
 		if long && r.Chance(1, 3) {
-			h = int32(r.Range(1997, 2003))
+			h = boundary + int32(r.Range(-3, 3))
 			if h < first {
 				h = first
 			}
@@ -719,6 +1008,12 @@ func c16GenRecovery(r *gen.R, long bool) (c16In, []string) {
 		heights = append(heights, h)
 	}
 	sort.Slice(heights, func(i, j int) bool { return heights[i] < heights[j] })
+	for _, h := range heights {
+		if h == boundary || h == boundary+1 {
+			tags = append(tags, "activity_at_first_batch_boundary")
+			break
+		}
+	}
 
 	// active branches
 	var active []bk
@@ -887,6 +1182,9 @@ func c16GenRecovery(r *gen.R, long bool) (c16In, []string) {
 	}
 	// interruption points
 	in.Cuts = []int32{}
+	if in.Entry == "sync" && c0 < in.Len {
+		in.Cuts = append(in.Cuts, c0)
+	}
 	if r.Chance(1, 2) {
 		for n := r.Range(1, 2); n > 0; n-- {
 			var c int32
@@ -896,7 +1194,7 @@ func c16GenRecovery(r *gen.R, long bool) (c16In, []string) {
 			case 1:
 				c = heights[r.Intn(len(heights))] - int32(r.Range(0, 1))
 			case 2:
-				c = int32(r.Range(1998, 2002))
+				c = boundary + int32(r.Range(-2, 2))
 			}
 			if c < 0 {
 				c = 0
@@ -904,9 +1202,14 @@ func c16GenRecovery(r *gen.R, long bool) (c16In, []string) {
 			if c > in.Len {
 				c = in.Len
 			}
+			if in.Entry == "sync" && c < c0 {
+				c = c0 // the first start is the one the birthday block was aimed with
+			}
 			in.Cuts = append(in.Cuts, c)
 		}
 		sort.Slice(in.Cuts, func(i, j int) bool { return in.Cuts[i] < in.Cuts[j] })
+	}
+	if len(in.Cuts) > 0 {
 		tags = append(tags, "interrupted_and_resumed")
 	}
 	in.Cuts = append(in.Cuts, in.Len)
@@ -1061,17 +1364,27 @@ func main() {
 			res := make([]*c16Case, len(jobs))
 			errs := make([]error, len(jobs))
 			var wg sync.WaitGroup
-			next := make(chan int, len(jobs))
+			// the long chains first (scheduling only: results are emitted in job order)
+			order := make([]int, len(jobs))
 			for i := range jobs {
+				order[i] = i
+			}
+			sort.SliceStable(order, func(a, b int) bool { return jobs[order[a]].in.Len > jobs[order[b]].in.Len })
+			next := make(chan int, len(jobs))
+			for _, i := range order {
 				next <- i
 			}
 			close(next)
-			for w := 0; w < 6; w++ {
+			for w := 0; w < 8; w++ {
 				wg.Add(1)
 				go func() {
 					defer wg.Done()
 					for i := range next {
+						t0 := time.Now()
 						res[i], errs[i] = compute(jobs[i].in, jobs[i].tags)
+						if res[i] != nil {
+							res[i].Ms = time.Since(t0).Milliseconds()
+						}
 					}
 				}()
 			}
